@@ -273,7 +273,11 @@ func genC02(r *rng, n int, emit func(string)) {
 // mutate a code string in the ways the property enumerates
 func mutateCode(r *rng, code string) string {
 	b := []byte(code)
-	switch r.intn(9) {
+	switch r.intn(11) {
+	case 9: // the right code followed by 256 or 512 more characters (length equal modulo 256)
+		return code + strings.Repeat(pick(r, []string{"0", "7", " "}), pick(r, []int{256, 512}))
+	case 10:
+		return code + strings.Repeat("0", pick(r, []int{255, 257, 10}))
 	case 0:
 		if len(b) > 0 {
 			i := r.intn(len(b))
@@ -325,6 +329,9 @@ func genC03(r *rng, n int, emit func(string)) {
 			code = mutateCode(r, code)
 		}
 		emit(fmt.Sprintf("vhotp %s %s %d %s", hxs(s), hxs(code), c, fmtParam(p)))
+		if i%4 == 0 { // generate at cc, validate the returned string itself at c
+			emit(fmt.Sprintf("gvhotp %s %d %d %s", hxs(s), cc, c, fmtParam(p)))
+		}
 	}
 }
 
@@ -353,6 +360,12 @@ func genC04(r *rng, n int, emit func(string)) {
 			code = mutateCode(r, code)
 		}
 		emit(fmt.Sprintf("vtotp %s %s %s %s", hxs(s), hxs(code), genTime(r, sec), fmtParam(p)))
+		if i%4 == 0 { // generate at a neighbouring step, validate the returned string itself at sec
+			sec2 := int64(step * per)
+			if sec2 >= 0 && uint64(sec2)/per == step {
+				emit(fmt.Sprintf("gvtotp %s %s %s %s", hxs(s), genTime(r, sec2), genTime(r, sec), fmtParam(p)))
+			}
+		}
 	}
 }
 
@@ -594,6 +607,20 @@ func genC06(r *rng, n int, emit func(string)) {
 			code = refCode(key, ocraMsg(c2, in), c.Digits, uint64(c.Hash))
 		}
 		emit(fmt.Sprintf("vocra %s %s %s %s", hxs(s), hxs(code), fmtSuite(c), fmtInput(in)))
+		if i%4 == 0 { // generate for a neighbouring input, validate the returned string itself for this one
+			in2 := in
+			if c.IncludeCounter && len(in.Counter) == 8 {
+				in2.Counter = append([]byte(nil), in.Counter...)
+				in2.Counter[7]++
+			} else if len(in.Challenge) > 0 {
+				in2.Challenge = append([]byte(nil), in.Challenge...)
+				in2.Challenge[len(in2.Challenge)-1] ^= 1
+			}
+			if r.chance(1, 3) {
+				in2 = in
+			}
+			emit(fmt.Sprintf("gvocra %s %s %s %s", hxs(s), fmtSuite(c), fmtInput(in2), fmtInput(in)))
+		}
 	}
 }
 
@@ -649,6 +676,14 @@ func genC07(r *rng, n int, emit func(string)) {
 
 // ---------------- C14 ----------------
 func genC14(r *rng, n int, emit func(string)) {
+	names14 := otp.ListSuites()
+	sortStrings(names14)
+	for i := 0; i < n/6; i++ {
+		c := genSuite(r, r.chance(1, 3))
+		in := genInput(r, c, r.chance(3, 4))
+		s, _ := genSecret(r)
+		emit(fmt.Sprintf("gocra_mut %s %s %s %s", hxs(pick(r, names14)), hxs(s), fmtSuite(c), fmtInput(in)))
+	}
 	// suite usability: every combination of the listed values
 	for _, d := range []int{-1, 0, 3, 4, 5, 10, 11, 12} {
 		for h := 0; h <= 4; h++ {
@@ -848,6 +883,9 @@ func genC08(r *rng, n int, emit func(string)) {
 			}
 		}
 		emit(fmt.Sprintf("rand %s %s", hx(stream), strings.Join(algos, ",")))
+		if i%3 == 1 { // a source that returns short reads (io.Reader allows it; rand.Read must read fully)
+			emit(fmt.Sprintf("randchunk %s %d %s", hx(stream), pick(r, []int{1, 7, 16, 19, 20, 31, 63}), strings.Join(algos, ",")))
+		}
 		if i%10 == 0 {
 			emit(fmt.Sprintf("randconc %s %d %d", hx(r.bytes(4096)), 1+r.intn(16), 1+r.intn(6)))
 		}
@@ -868,6 +906,19 @@ func genC13(r *rng, n int, emit func(string)) {
 	genC03(r, n/3, both)
 	genC04(r, n/3, both)
 	genC06(r, n/3, both)
+	// URL parsing errors: the secret travels in the query
+	for i := 0; i < n/6; i++ {
+		sec, _ := genSecret(r)
+		q := url.Values{}
+		q.Set("secret", sec)
+		q.Set("issuer", "Example")
+		if r.chance(1, 2) {
+			q.Set(pick(r, []string{"digits", "period", "algorithm"}), pick(r, []string{"x", "-1", "999", "MD5", "6"}))
+		}
+		u := &url.URL{Scheme: pick(r, []string{"otpauth", "otpauth", "http"}), Host: pick(r, []string{"totp", "hotp", "xotp"}),
+			Path: pick(r, []string{"/alice@example.com", "/Example:alice", "/", ""}), RawQuery: q.Encode()}
+		both("purl " + fmtURL(u))
+	}
 	// failing calls of the generating operations with long secrets
 	for i := 0; i < n/3; i++ {
 		s, _ := genSecret(r)
